@@ -77,6 +77,7 @@ def run(ctx):
     nviol = ncorr = 0
     nodes = amb = hollow = unordered = noroot = 0
     kinds_seen = set()
+    kind_class = {}
     for (kind, mode, cat, text), l, i, m in zip(cases, lines, impl, model):
         for k in re.findall(r" N\d+ (\w+) ", i):
             kinds_seen.add(k)
@@ -101,6 +102,16 @@ def run(ctx):
             bad = "the tokens owned by the nodes do not appear in increasing source order along the children"
         elif foreign:
             bad = "%d node(s) were visited that are not reachable from the root through childNodesAndTokens" % foreign
+        km = re.search(r" kc=(\S+)", i)
+        if km and km.group(1) != "-":
+            for pair in km.group(1).split(","):
+                k_, c_ = pair.split(":")
+                kind_class.setdefault(k_, set()).update(c_.split("+"))
+        dm = re.search(r" dc=(\d+)(?::(\S+))?", i)
+        if not bad and dm and int(dm.group(1)):
+            # the class a node dispatches to (its visitX) against every asY() of SyntaxNode and, for one-kind classes, against its kind
+            # (class table regenerated from SyntaxNodes*.h by translators/nodeclasses.py)
+            bad = "%s node(s) whose kind-specific down-casts do not correspond to their kind / class: %s" % (dm.group(1), dm.group(2))
         shown = text if isinstance(text, str) else text.decode("latin-1")
         if bad and specmis and re.search(r"\)\s*=[^=]", shown) and all(x.split(":")[1] == "ParenthesizedDeclarator" and "max=" in x for x in specmis.split(",") if ":" in x) \
                 and not any(re.search(r"l=(\d+)/max=(\d+)", x) is None for x in specmis.split(",") if ":" in x):
@@ -116,6 +127,22 @@ def run(ctx):
                 ctx.report("corr:" + shown[:80], "firstToken/lastToken/visit of the front end differ from the Lean model on %r: %s" % (shown[:300], modelmis[:400]),
                            {"component": "tree", "case": l, "driver": m[:2000]}, no_input=True)
             ncorr += 1
+    # every syntax kind is built by ONE class, over all trees; the kinds SyntaxFacts calls assignment / binary expressions by those classes
+    from translators import facts as _facts
+    from ..common import REPO
+    try:
+        ft = _facts.parse(REPO)
+    except Exception:
+        ft = {"isasg": [], "isbin": []}
+    for k_, cs in sorted(kind_class.items()):
+        want = "AssignmentExpression" if k_ in ft["isasg"] else "BinaryExpression" if k_ in ft["isbin"] else None
+        if len(cs) > 1 or (want and cs != {want}) or (k_ in cs and False):
+            ctx.report("kind-class:" + k_, "nodes of kind %s are built as %s%s: the kind-specific down-cast does not correspond to the kind" % (k_, " and ".join(sorted(cs)), " (SyntaxFacts puts the kind with class %s)" % want if want else ""),
+                       {"component": "tree", "kind": k_, "classes": sorted(cs)}, no_input=True)
+    if ctx.translator_errors.get("nodeclasses") and not ctx.violations:
+        ctx.report("translator:nodeclasses", "translators/nodeclasses.py could not translate the node class declarations (%s); the down-casts were checked against the committed last-known-good class table, but the generated obligations are no longer about the current source" % ctx.translator_errors["nodeclasses"],
+                   {"translator": "translators/nodeclasses.py", "error": ctx.translator_errors["nodeclasses"]}, no_input=True)
+    ctx.notes["kind_to_class"] = {k_: sorted(cs)[0] for k_, cs in sorted(kind_class.items())}
     ctx.cov.update({
         "evaluations": len(cases), "distinct_nontrivial": len(kinds_seen), "traces_validated_against_impl": len(cases), "exhaustive": False,
         "rule": "generated gcc-valid C11/GNU/K&R programs (gen/cgen.py, every supported production) in the four disambiguation modes, token- and byte-mutated variants (erroneous trees: missing tokens, null children), every ambiguity form x 4 modes, stand-alone expressions/statements/declarations incl. truncated ones; every node of every tree compared (first, last, visit count) with the Lean model and with min/max of its subtree; non-trivial = distinct node kinds that occurred",
